@@ -34,23 +34,19 @@ def ancestors(levels, v):
     return out
 
 
-def one(arg):
-    seed, tier = arg
-    from AutoCarver.discretizers.utils.qualitative_discretizers import ChainedDiscretizer
-    rng = random.Random(seed); recs = []
-    leaves, levels = make_hierarchy(rng)
-    n = rng.choice([20, 40, 50]); mf = rng.choice([0.1, 0.2, 0.25, 0.3])
-    # frequency profile: some leaves exactly on / just below the threshold, some never observed
+def gen_rows(rng, seed, leaves, mf, n, handling, second=False):
+    """one column: -> (rows, counts, unknown)"""
     thr = int(round(mf * n)); counts = {}
     pool = [0, 0, 1, max(0, thr - 1), thr, thr + 1, 2 * thr, 3]
     for v in leaves: counts[v] = rng.choice(pool)
     if sum(counts.values()) == 0: counts[leaves[0]] = thr + 1
-    exact_max = (seed % 6 == 0) and thr >= 1
+    exact_max = (seed % 6 == 0) and thr >= 1 and not second
     if exact_max:
         # the most frequent value sits EXACTLY on min_freq
         counts = {v: min(c, thr) for v, c in counts.items()}; counts[leaves[0]] = thr
     rows = [v for v, c in counts.items() for _ in range(c)]
     nan_rows = rng.choice([0, 0, 2]); unknown = rng.choice([[], [], ['zz1'], ['zz1', 'zz2']])
+    if second and handling == 'raise': unknown = []
     rows += [np.nan] * nan_rows + [u for u in unknown for _ in range(rng.choice([1, 2]))]
     if exact_max:
         n = len(rows) if len(rows) >= int(round(thr / mf)) else int(round(thr / mf))
@@ -59,85 +55,119 @@ def one(arg):
             v = rng.choice(spare); rows.append(v); counts[v] += 1; spare = [u for u in leaves if counts[u] < thr]
         while len(rows) < n: rows.append(np.nan)
     while len(rows) < n: rows.append(rng.choice([v for v in leaves if counts[v] > 0]))
-    rng.shuffle(rows); n = len(rows)
+    rng.shuffle(rows)
+    return rows
+
+
+def one(arg):
+    seed, tier = arg
+    from AutoCarver.discretizers.utils.qualitative_discretizers import ChainedDiscretizer
+    rng = random.Random(seed); recs = []
+    leaves, levels = make_hierarchy(rng)
+    # every fifth hierarchy has numeric codes as leaves ('1000001', ...), given as strings in the hierarchy and stored as floats in the column (a code column with missing values)
+    float_codes = (seed % 5 == 3)
+    if float_codes:
+        base = rng.choice([0, 100, 1000000, 20000000]); code = {v: str(base + i + 1) for i, v in enumerate(leaves)}
+        leaves = [code[v] for v in leaves]; levels = [{p: [code.get(c, c) for c in ch] for p, ch in lvl.items()} for lvl in levels]
+    n = rng.choice([20, 40, 50]); mf = rng.choice([0.1, 0.2, 0.25, 0.3])
     handling = rng.choice(['raise', 'drop'])
-    X = pd.DataFrame({'f': pd.Series(rows, dtype=object), 'other': range(n)}); y = pd.Series([i % 2 for i in range(n)])
+    rows = gen_rows(rng, seed, leaves, mf, n, handling); n = len(rows)
+    cols = {'f': rows}
+    if seed % 2 == 1:
+        # a second chained feature over the same hierarchy with its own frequencies (each feature is grouped according to ITS OWN frequencies)
+        r2 = gen_rows(rng, seed, leaves, mf, n, handling, second=True)[:n]
+        present = [v for v in r2 if not isnan(v)] or [leaves[0]]
+        while len(r2) < n: r2.append(rng.choice(present))
+        cols['f2'] = r2
+    def column(rs):
+        if float_codes: return pd.Series([np.nan if isnan(v) else (float(v) if v in leaves else 9.0e8 + len(v)) for v in rs], dtype=float)
+        return pd.Series(rs, dtype=object)
+    X = pd.DataFrame(dict({f: column(rs) for f, rs in cols.items()}, other=range(n))); y = pd.Series([i % 2 for i in range(n)])
     idx_kind = seed % 3
     if idx_kind == 1: X.index = [i * 2 + 100 for i in range(n)]; y.index = X.index           # an index that is not 0..n-1 (e.g. rows of a train/test split)
     if idx_kind == 2: X.index = ['r%03d' % i for i in range(n)]; y.index = X.index
-    lit = dict(levels=levels, rows=[None if isnan(v) else v for v in rows], min_freq=mf, unknown_handling=handling)
+    lit = dict(levels=levels, columns={f: [None if isnan(v) else v for v in rs] for f, rs in cols.items()}, min_freq=mf, unknown_handling=handling, float_codes=float_codes)
     def rec(clause, ok, msg, extra=None): recs.append((clause, bool(ok), dict(lit, **(extra or {})) if not ok else dict(seed=seed), msg))
     try:
-        d = ChainedDiscretizer(qualitative_features=['f'], chained_orders=chained_orders_arg(levels), min_freq=mf, unknown_handling=handling, copy=True)
+        d = ChainedDiscretizer(qualitative_features=list(cols), chained_orders=chained_orders_arg(levels), min_freq=mf, unknown_handling=handling, copy=True)
     except Exception as e:
         rec('ChainedDiscretizer.__init__#raises.nothing_on_valid_hierarchy', False, '__init__ raised %s: %s' % (type(e).__name__, str(e)[:150])); return recs
     all_values = leaves + [p for lvl in levels for p in lvl]
     rec('ChainedDiscretizer.__init__#post.known_values_complete_and_unique', sorted(d.known_values) == sorted(all_values), 'known_values %r vs hierarchy %r' % (d.known_values, all_values))
     r = outcome(lambda: d.fit(X, y))
-    freq = pd.Series(rows, dtype=object).fillna('__NAN__').value_counts(normalize=True).to_dict()
-    if max(v for k, v in freq.items() if k != '__NAN__') < mf: return recs          # the feature is not discretized at all (largest modality rarer than min_freq): nothing to judge
-    if unknown and handling == 'raise':
-        rec('ChainedDiscretizer.fit#raises.AssertionError.unknown_value_with_handling_raise', r[0] == 'reject', 'unknown values %r with unknown_handling=raise: %s' % (unknown, r[0])); return recs
+    unknowns = {f: sorted(set(v for v in rs if not isnan(v) and v not in leaves)) for f, rs in cols.items()}
+    freqs = {f: pd.Series(rs, dtype=object).fillna('__NAN__').value_counts(normalize=True).to_dict() for f, rs in cols.items()}
+    discretizable = {f: max(v for k, v in freqs[f].items() if k != '__NAN__') >= mf for f in cols}
+    if not all(discretizable.values()): return recs          # a feature is not discretized at all (largest modality rarer than min_freq): nothing to judge
+    if any(unknowns.values()) and handling == 'raise':
+        rec('ChainedDiscretizer.fit#raises.AssertionError.unknown_value_with_handling_raise', r[0] == 'reject', 'unknown values %r with unknown_handling=raise: %s' % (unknowns, r[0])); return recs
     if r[0] == 'reject':
-        # the largest modality may be rarer than min_freq -> the feature is dropped / other legitimate refusals are not judged, except for unknown_handling=drop
-        if unknown and handling == 'drop' and max(freq.values()) >= mf:
-            rec('ChainedDiscretizer.fit#post.unknown_values_merged_with_missing_values_when_drop', False, 'unknown values %r with unknown_handling=drop: fit raised AssertionError' % (unknown,))
+        # unknown_handling=drop must not refuse unknown values; a hierarchy-only sample must not be refused at all
+        if any(unknowns.values()) and handling == 'drop':
+            rec('ChainedDiscretizer.fit#post.unknown_values_merged_with_missing_values_when_drop', False, 'unknown values %r with unknown_handling=drop: fit raised AssertionError' % (unknowns,))
+        elif not any(unknowns.values()):
+            rec('ChainedDiscretizer.fit#raises.nothing_when_every_value_is_known_to_the_hierarchy', False, 'every observed value is known to the hierarchy, a value reaches min_freq, but fit raised AssertionError')
         return recs
     if r[0] != 'ok':
         rec('ChainedDiscretizer.fit#raises.only_AssertionError', False, 'fit: %s' % r[0]); return recs
-    if 'f' not in d.features:
-        rec('ChainedDiscretizer.fit#post.feature_discretized_when_a_value_reaches_min_freq', False, 'largest modality has frequency %.4f >= min_freq %.2f but the feature was dropped' % (max(v for k, v in freq.items() if k != '__NAN__'), mf)); return recs
-    order = d.values_orders['f']
-    present = order.values()
-    rec('ChainedDiscretizer.fit#post.every_hierarchy_value_still_present', all(v in present for v in all_values), 'missing from values_orders: %r' % ([v for v in all_values if v not in present],))
-    for v in leaves:
-        fv = freq.get(v, 0.0); g = order.get_group(v)
-        if counts[v] > 0:
-            own = (g == v)
-            rec('ChainedDiscretizer.fit#post.own_modality_iff_frequent', own == (fv >= mf), 'value %r: frequency %.4f, min_freq %.2f, group leader %r' % (v, fv, mf, g), dict(value=v))
-            if own: rec('ChainedDiscretizer.fit#post.frequent_value_keeps_a_group_of_its_own', list(order.content[v]) == [v], 'group of %r is %r' % (v, order.content[v]), dict(value=v))
-        if g != v:
-            rec('ChainedDiscretizer.fit#post.rare_value_merged_into_an_ancestor', g in ancestors(levels, v), 'value %r merged into %r, ancestors are %r' % (v, g, ancestors(levels, v)), dict(value=v))
-    # reference model of the whole merge (from the property text): level by level, every member of the level whose CURRENT frequency among all rows is below
-    # min_freq moves to its parent; frequencies are re-counted after each level
-    parent = [{c: p for p, ch in lvl.items() for c in ch} for lvl in levels]
-    lab_rows = [('__NAN__' if isnan(v) or v in unknown else v) for v in rows]; final = {v: v for v in all_values}
-    for li, lvl in enumerate(levels):
-        cnt = {}
-        for l in lab_rows: cnt[l] = cnt.get(l, 0) + 1
-        members = set(parent[li]) | set(lvl)
-        move = {m: parent[li].get(m, m) for m in members if cnt.get(m, 0) / n < mf}
-        lab_rows = [move.get(l, l) for l in lab_rows]
-        final = {v: move.get(g, g) for v, g in final.items()}
-    wrong = [(v, order.get_group(v), final[v]) for v in all_values if order.get_group(v) != final[v]]
-    rec('ChainedDiscretizer.fit#post.grouping_equals_reference_model', not wrong, '(value, fitted leader, expected leader): %r' % (wrong[:5],))
-    # an intermediate ancestor group that is itself rarer than min_freq is merged further up
     out = outcome(lambda: d.transform(X))
-    if out[0] != 'ok':
-        rec('ChainedDiscretizer.transform#post.accepts_training_data', False, 'transform of the training data: %s' % out[0]); return recs
-    col = out[1]['f']; lab_freq = col.fillna('__NAN__').value_counts(normalize=True).to_dict()
-    tops = set(levels[-1])
-    for lvl_i, lvl in enumerate(levels[:-1]):
-        for p in lvl:
-            if p in list(order) and ancestors(levels, p):
-                rec('ChainedDiscretizer.fit#post.rare_intermediate_group_merged_further_up', lab_freq.get(p, 0.0) >= mf, 'intermediate group %r keeps its own modality with frequency %.4f < min_freq %.2f' % (p, lab_freq.get(p, 0.0), mf), dict(value=p))
-    # transform outputs each value's group leader (missing values stay missing: dropna=False)
-    bad = []
-    for v, o in zip(rows, col.tolist()):
-        if isnan(v): ok = isnan(o) or o == d.str_nan
-        elif v in unknown: ok = isnan(o) or o == d.str_nan
-        else: ok = (o == order.get_group(v))
-        if not ok: bad.append((v, o))
-    rec('ChainedDiscretizer.transform#post.outputs_group_leader', not bad, 'rows (value, output) %r' % (bad[:5],))
-    if unknown and handling == 'drop':
-        rec('ChainedDiscretizer.fit#post.unknown_values_merged_with_missing_values_when_drop', all(order.get_group(u) == d.str_nan for u in unknown), 'groups of unknown values: %r' % ([order.get_group(u) for u in unknown],))
-    rec('ChainedDiscretizer.transform#frame.other_columns_untouched', series_list(out[1]['other']) == list(range(n)), 'other column changed')
+    for f, rows in cols.items():
+        unknown = unknowns[f]; freq = freqs[f]; F = dict(feature=f)
+        counts = {v: sum(1 for x in rows if x == v) for v in leaves}
+        if f not in d.features:
+            rec('ChainedDiscretizer.fit#post.feature_discretized_when_a_value_reaches_min_freq', False, 'largest modality has frequency %.4f >= min_freq %.2f but the feature was dropped' % (max(v for k, v in freq.items() if k != '__NAN__'), mf), F); continue
+        order = d.values_orders[f]
+        present = order.values()
+        rec('ChainedDiscretizer.fit#post.every_hierarchy_value_still_present', all(v in present for v in all_values), 'missing from values_orders: %r' % ([v for v in all_values if v not in present],), F)
+        if not all(v in present for v in all_values): continue
+        for v in leaves:
+            fv = freq.get(v, 0.0); g = order.get_group(v)
+            if counts[v] > 0:
+                own = (g == v)
+                rec('ChainedDiscretizer.fit#post.own_modality_iff_frequent', own == (fv >= mf), 'value %r: frequency %.4f, min_freq %.2f, group leader %r' % (v, fv, mf, g), dict(value=v, feature=f))
+                if own: rec('ChainedDiscretizer.fit#post.frequent_value_keeps_a_group_of_its_own', [x for x in order.content[v] if isinstance(x, str)] == [v], 'group of %r is %r' % (v, order.content[v]), dict(value=v, feature=f))
+            if g != v:
+                rec('ChainedDiscretizer.fit#post.rare_value_merged_into_an_ancestor', g in ancestors(levels, v), 'value %r merged into %r, ancestors are %r' % (v, g, ancestors(levels, v)), dict(value=v, feature=f))
+        # reference model of the whole merge (from the property text): level by level, every member of the level whose CURRENT frequency among all rows is below
+        # min_freq moves to its parent; frequencies are re-counted after each level
+        parent = [{c: p for p, ch in lvl.items() for c in ch} for lvl in levels]
+        lab_rows = [('__NAN__' if isnan(v) or v in unknown else v) for v in rows]; final = {v: v for v in all_values}
+        for li, lvl in enumerate(levels):
+            cnt = {}
+            for l in lab_rows: cnt[l] = cnt.get(l, 0) + 1
+            members = set(parent[li]) | set(lvl)
+            move = {m: parent[li].get(m, m) for m in members if cnt.get(m, 0) / n < mf}
+            lab_rows = [move.get(l, l) for l in lab_rows]
+            final = {v: move.get(g, g) for v, g in final.items()}
+        wrong = [(v, order.get_group(v), final[v]) for v in all_values if order.get_group(v) != final[v]]
+        rec('ChainedDiscretizer.fit#post.grouping_equals_reference_model', not wrong, '(value, fitted leader, expected leader): %r' % (wrong[:5],), F)
+        # an intermediate ancestor group that is itself rarer than min_freq is merged further up
+        if out[0] != 'ok':
+            rec('ChainedDiscretizer.transform#post.accepts_training_data', False, 'transform of the training data: %s' % out[0]); return recs
+        col = out[1][f]; lab_freq = col.fillna('__NAN__').value_counts(normalize=True).to_dict()
+        for lvl_i, lvl in enumerate(levels[:-1]):
+            for p in lvl:
+                if p in list(order) and ancestors(levels, p):
+                    rec('ChainedDiscretizer.fit#post.rare_intermediate_group_merged_further_up', lab_freq.get(p, 0.0) >= mf, 'intermediate group %r keeps its own modality with frequency %.4f < min_freq %.2f' % (p, lab_freq.get(p, 0.0), mf), dict(value=p, feature=f))
+        # transform outputs each value's group leader (missing values stay missing: dropna=False); unknown values merged with the missing ones come out exactly as they do
+        bad = []; merged_out = set()
+        for v, o in zip(rows, col.tolist()):
+            if isnan(v) or v in unknown:
+                ok = isnan(o) or o == d.str_nan; merged_out.add('nan' if isnan(o) else repr(o))
+            else: ok = (o == order.get_group(v))
+            if not ok: bad.append((v, o))
+        rec('ChainedDiscretizer.transform#post.outputs_group_leader', not bad, 'rows (value, output) %r' % (bad[:5],), F)
+        if unknown and handling == 'drop':
+            got = [order.get_group(X[f].iloc[i]) for i, v in enumerate(rows) if v in unknown]
+            rec('ChainedDiscretizer.fit#post.unknown_values_merged_with_missing_values_when_drop', all(g == d.str_nan for g in got), 'groups of unknown values: %r' % (got,), F)
+            rec('ChainedDiscretizer.transform#post.unknown_and_missing_values_share_one_output', len(merged_out) <= 1, 'unknown values were merged with the missing values but transform outputs %r for them' % (sorted(merged_out),), F)
+    if out[0] == 'ok': rec('ChainedDiscretizer.transform#frame.other_columns_untouched', series_list(out[1]['other']) == list(range(n)), 'other column changed')
     return recs
 
 
 def run(ctx):
     n = 400 if ctx.tier == 'quick' else 4000
     ctx.bound('ChainedDiscretizer', '%d seeded hierarchies (2-3 levels, 2-3 first-level groups with fan-out 1-3, optional second level), 20-50 rows, leaf counts from {0, 1, thr-1, thr, thr+1, 2thr, 3} '
-              'with thr = min_freq*rows, min_freq in {0.1,0.2,0.25,0.3}, 0-2 unknown values, unknown_handling in {raise, drop}, optional NaN' % n)
+              'with thr = min_freq*rows, min_freq in {0.1,0.2,0.25,0.3}, 0-2 unknown values, unknown_handling in {raise, drop}, optional NaN; every second case has a second chained feature over the same hierarchy with its own frequencies, every fifth has numeric codes stored as a float column (up to 8 digits)' % n)
     for recs in zoo.pmap(one, [(ctx.seed * 7 + i, ctx.tier) for i in range(n)]):
         for clause, ok, wit, msg in recs: ctx.check(clause, clause.split('#')[0], ok, wit, msg)
